@@ -8,7 +8,7 @@
 mod scenarios;
 
 use serde_json::{json, Value as J};
-use shuttle::scheduler::{PctScheduler, RandomScheduler};
+use shuttle::scheduler::{PctScheduler, RandomScheduler, ReplayScheduler};
 use shuttle::{Config, FailurePersistence, MaxSteps, Runner};
 use std::collections::BTreeMap;
 use std::sync::atomic::{AtomicU64, Ordering};
@@ -110,21 +110,68 @@ fn classify(msg: &str) -> (&'static str, String) {
 	("C15", "panic".into())
 }
 
+// Seeded getrandom for the thread that runs the executions: std's per-thread RandomState keys
+// (HashMap iteration order inside parity-db) are then the same in every process, which exact
+// replay of a schedule needs. Every execution runs on a fresh OS thread for the same reason.
+static RAND_OWNER: std::sync::atomic::AtomicI64 = std::sync::atomic::AtomicI64::new(0);
+static mut RAND_STATE: u64 = 0;
+
+#[no_mangle]
+pub unsafe extern "C" fn getrandom(buf: *mut libc::c_void, len: libc::size_t, flags: libc::c_uint) -> libc::ssize_t {
+	let tid = libc::syscall(libc::SYS_gettid) as i64;
+	if RAND_OWNER.load(Ordering::Relaxed) == tid {
+		let s = std::slice::from_raw_parts_mut(buf as *mut u8, len);
+		for c in s.chunks_mut(8) {
+			RAND_STATE = RAND_STATE.wrapping_add(0x9E37_79B9_7F4A_7C15);
+			let v = mix(RAND_STATE).to_le_bytes();
+			c.copy_from_slice(&v[..c.len()]);
+		}
+		return len as libc::ssize_t
+	}
+	libc::syscall(libc::SYS_getrandom, buf, len, flags) as libc::ssize_t
+}
+
+/// Run `f` on a fresh OS thread with the seeded getrandom stream.
+pub fn on_fresh_thread<R: Send + 'static>(f: impl FnOnce() -> R + Send + 'static) -> std::thread::Result<R> {
+	std::thread::Builder::new()
+		.stack_size(16 << 20)
+		.spawn(move || {
+			unsafe {
+				RAND_STATE = 0x5EED_5EED;
+			}
+			RAND_OWNER.store(unsafe { libc::syscall(libc::SYS_gettid) } as i64, Ordering::SeqCst);
+			let r = std::panic::catch_unwind(std::panic::AssertUnwindSafe(f));
+			RAND_OWNER.store(0, Ordering::SeqCst);
+			r
+		})
+		.expect("spawn")
+		.join()
+		.expect("join")
+}
+
 fn run_batch(scenario: &'static str, sched: &str, seed: u64, iters: usize, persist: &str) -> Result<(), (String, Option<String>)> {
 	let _ = std::fs::create_dir_all(persist);
 	let before: Vec<String> = std::fs::read_dir(persist)
 		.map(|rd| rd.filter_map(|e| e.ok()).filter_map(|e| e.file_name().into_string().ok()).collect())
 		.unwrap_or_default();
-	let cfg = config(persist, max_steps_for(scenario));
-	let body = move || scenarios::run(scenario);
-	let r = std::panic::catch_unwind(std::panic::AssertUnwindSafe(|| {
-		if let Some(d) = sched.strip_prefix("pct") {
-			let depth: usize = d.parse().unwrap_or(3);
-			Runner::new(PctScheduler::new_from_seed(seed, depth, iters), cfg).run(body);
-		} else {
-			Runner::new(RandomScheduler::new_from_seed(seed, iters), cfg).run(body);
+	let mut r: std::thread::Result<()> = Ok(());
+	for i in 0..iters {
+		let cfg = config(persist, max_steps_for(scenario));
+		let body = move || scenarios::run(scenario);
+		let sched = sched.to_string();
+		let s = mix(seed ^ mix(i as u64 + 1));
+		r = on_fresh_thread(move || {
+			if let Some(d) = sched.strip_prefix("pct") {
+				let depth: usize = d.parse().unwrap_or(3);
+				Runner::new(PctScheduler::new_from_seed(s, depth, 1), cfg).run(body);
+			} else {
+				Runner::new(RandomScheduler::new_from_seed(s, 1), cfg).run(body);
+			}
+		});
+		if r.is_err() {
+			break
 		}
-	}));
+	}
 	match r {
 		Ok(()) => Ok(()),
 		Err(p) => {
@@ -209,9 +256,11 @@ fn cmd_replay(args: &[String]) -> i32 {
 	let schedule = j["schedule"].as_str().unwrap_or("").to_string();
 	let prop = j["violation"]["property"].as_str().unwrap_or("").to_string();
 	let want_class = j["violation"]["class"].as_str().unwrap_or("").to_string();
-	let r = std::panic::catch_unwind(std::panic::AssertUnwindSafe(|| {
-		shuttle::replay(move || scenarios::run(scenario), &schedule);
-	}));
+	let r = on_fresh_thread(move || {
+		let mut cfg = config("/dev/null", max_steps_for(scenario));
+		cfg.failure_persistence = FailurePersistence::None;
+		Runner::new(ReplayScheduler::new_from_encoded(&schedule), cfg).run(move || scenarios::run(scenario));
+	});
 	let _ = std::fs::remove_dir_all(scratch());
 	match r {
 		Ok(()) => {
@@ -368,10 +417,12 @@ fn cmd_check(args: &[String]) -> i32 {
 		// replay in this fresh process; must fail the same way
 		let schedule = v["schedule"].as_str().unwrap_or("").to_string();
 		let sc: &'static str = Box::leak(scenario.clone().into_boxed_str());
-		let r = std::panic::catch_unwind(std::panic::AssertUnwindSafe(|| {
-			let s2 = schedule.clone();
-			shuttle::replay(move || scenarios::run(sc), &s2);
-		}));
+		let s2 = schedule.clone();
+		let r = on_fresh_thread(move || {
+			let mut cfg = config("/dev/null", max_steps_for(sc));
+			cfg.failure_persistence = FailurePersistence::None;
+			Runner::new(ReplayScheduler::new_from_encoded(&s2), cfg).run(move || scenarios::run(sc));
+		});
 		let reproduced = match &r {
 			Err(p) => classify(&panic_text(p)).0 == vp,
 			Ok(()) => false,
@@ -458,7 +509,37 @@ fn cmd_check(args: &[String]) -> i32 {
 	exit
 }
 
+struct ProbeLogger;
+impl log::Log for ProbeLogger {
+	fn enabled(&self, m: &log::Metadata) -> bool {
+		m.level() <= log::Level::Debug
+	}
+	fn log(&self, record: &log::Record) {
+		// reach probes only; never read by an oracle
+		if let Some(s) = record.args().as_str() {
+			let _ = s;
+		}
+		let t = format!("{}", record.args());
+		if std::env::var("SCHEDSIM_VERBOSE").is_ok() {
+			eprintln!("[pdb] {t}");
+		}
+		if t.starts_with("Deferred commit") {
+			probe("commit_deferred");
+		} else if t.starts_with("Waiting, queue size") {
+			probe("commit_throttled_queue_full");
+		} else if t.starts_with("Waiting for log cleanup") {
+			probe("enact_waited_for_cleanup");
+		} else if t.starts_with("Started reindex") {
+			probe("reindex_started");
+		}
+	}
+	fn flush(&self) {}
+}
+static PROBE_LOGGER: ProbeLogger = ProbeLogger;
+
 fn main() {
+	let _ = log::set_logger(&PROBE_LOGGER);
+	log::set_max_level(log::LevelFilter::Debug);
 	std::panic::set_hook(Box::new(|info| {
 		let loc = info.location().map(|l| format!("{}:{}", l.file(), l.line())).unwrap_or_default();
 		if let Ok(mut s) = LAST_PANIC.lock() {
